@@ -30,7 +30,7 @@ ASSUMPTIONS = [
     'files <= 64 kB',
 ]
 PROBES = ['two_readers_interleaved', 'span_ge3_vr', 'seg16', 'pad_ge4', 'zero_payload', 'chk_and_trail', 'vr20', 'vr16384', 'seq_with_zero',
-          'maxlen_with_zero', 'encrypted', 'pad_ge100', 'second_pass']
+          'maxlen_with_zero', 'encrypted', 'pad_ge100', 'second_pass', 'history_before_scan', 'iterator_created_before_history']
 
 File = None
 
@@ -45,6 +45,15 @@ def generate(seed, tier):
     rng = seeds.Rng(seed)
     model = D.gen_model(rng)
     sc = {'world': 'dlis_phys', 'model': model, 'passes': 2 if rng.chance(0.3) else 1}
+    if rng.chance(0.3):
+        # history on the same reader object: other complete operations run before the sequential read is consumed, and the
+        # iterator of the sequential read may have been created (not advanced) before them
+        nrec = len(model['records'])
+        ops = []
+        for _ in range(rng.randrange(1, 4)):
+            kind = rng.pick(['positions', 'visible', 'lrsh', 'fetch', 'abandoned_scan', 'validate'])
+            ops.append([kind, rng.randrange(max(1, nrec)), rng.randrange(1, 5)])
+        sc['history'] = {'lazy': rng.chance(0.6), 'ops': ops}
     if rng.chance(0.2):
         # a second reader on another file, alive at the same time; the two sequential reads are interleaved record by record
         # by an explicit schedule (0 = step this reader, 1 = step the other one)
@@ -113,13 +122,56 @@ def check_sul(res, sul_obj, sul):
             res.violation('sul-field-mismatch', f'SUL field {k}: written {v!r}, reported {got!r}', field=k, **sul_facts(sul))
 
 
-def sequential_read(res, reader, layout, tag):
+def run_history_op(res, reader, layout, op):
+    """One complete operation of another kind on the same reader (its result is C02's business; here it is history)."""
+    kind, k, m = op
+    res.op('history_' + kind)
+    if kind == 'positions':
+        n = sum(1 for _ in reader.iter_logical_record_positions())
+    elif kind == 'visible':
+        n = sum(1 for _ in reader.iter_visible_records())
+    elif kind == 'lrsh':
+        vrs = list(reader.iter_visible_records())
+        n = sum(1 for _ in reader.iter_LRSHs_for_visible_record(vrs[k % len(vrs)])) if vrs else 0
+    elif kind == 'fetch':
+        pos = [p for p in reader.iter_logical_record_positions()]
+        if pos:
+            reader.get_file_logical_data(pos[k % len(pos)].position, 0, -1)
+        n = len(pos)
+    elif kind == 'validate':
+        reader.validate_positions() if hasattr(reader, 'validate_positions') else None
+        n = 0
+    else:
+        # a sequential read that is given up after m records
+        it = reader.iter_logical_records()
+        n = 0
+        for _ in it:
+            n += 1
+            if n >= m:
+                break
+        it.close()
+    res.ev('history', kind, n)
+
+
+def sequential_read(res, reader, layout, tag, history=None):
     """Drives iter_logical_records() on an entered FileRead; compares as each record is yielded.
     Returns the list of payloads actually read (None on exception)."""
     exp = layout['records']
     got = []
+    iterator = None
+    if history:
+        res.probe('history_before_scan')
+        try:
+            if history.get('lazy'):
+                iterator = reader.iter_logical_records()
+                res.probe('iterator_created_before_history')
+            for op in history['ops']:
+                run_history_op(res, reader, layout, op)
+        except Exception as err:
+            res.violation('history-exception', f'{type(err).__name__}: {err} in history {history}', exc=type(err).__name__)
+            return None
     try:
-        for i, fld in enumerate(reader.iter_logical_records()):
+        for i, fld in enumerate(iterator if iterator is not None else reader.iter_logical_records()):
             pay = fld.logical_data.bytes if fld.logical_data is not None else None
             got.append(pay)
             res.ev(tag, i, fld.lr_type, fld.lr_is_eflr, len(pay) if pay is not None else -1, seeds.digest(pay))
@@ -182,7 +234,7 @@ def execute(scenario):
         res.op('scan')
         if p:
             res.probe('second_pass')
-        sequential_read(res, reader, layout, f'scan{p}')
+        sequential_read(res, reader, layout, f'scan{p}', scenario.get('history') if p == scenario.get('passes', 1) - 1 else None)
     if scenario.get('other') is not None:
         interleaved(res, scenario, reader, layout, clock)
     try:
@@ -258,6 +310,14 @@ def candidates(scenario):
             yield dict(scenario, schedule=[0, 1])
     if scenario.get('passes', 1) > 1:
         yield dict(scenario, passes=1)
+    h = scenario.get('history')
+    if h:
+        yield {k: v for k, v in scenario.items() if k != 'history'}
+        for j in range(len(h['ops'])):
+            if len(h['ops']) > 1:
+                yield dict(scenario, history=dict(h, ops=h['ops'][:j] + h['ops'][j + 1:]))
+        if h.get('lazy'):
+            yield dict(scenario, history=dict(h, lazy=False))
     for tag, m, _ in D.phys_candidates(scenario['model']):
         yield dict(scenario, model=m)
 
